@@ -29,11 +29,10 @@ PROPS = {
                  "the implementation's trace.",
         "note": "Trusted: Lean kernel, go/ast extractor (spill loop condition), harness + judge driver. A pushed copy = one PushEvent "
                 "call. Exists/Get = processed successfully or connected from outside. PushEvent/Clear hold the buffer mutex for their "
-                "whole duration, so concurrent callers are modelled as a sequence of operations. The internal caps (MaxInt32 entries / "
-                "bytes) of the wlru behind `incompletes` are not modelled.",
+                "whole duration, so concurrent callers are modelled as a sequence of operations. The wlru behind `incompletes` has no cap of its own "
+                "(MaxUint bytes / MaxInt entries since fix 52f91c5; on 32-bit platforms MaxInt = 2^31-1).",
         "trusted": ["go/cmd/extract (spillIncompletes loop condition)", "harness stream buf + judge driver (model line and P_C14 on the implementation's trace)"],
-        "assumptions": ["buffered events and bytes stay below the wlru's internal caps (MaxInt32)",
-                        "concurrent PushEvent/Clear calls are serialised by the buffer's mutex (not exercised concurrently by the stream)"],
+        "assumptions": ["concurrent PushEvent/Clear calls are serialised by the buffer's mutex (not exercised concurrently by the stream)"],
     },
     "C15": {
         "props": ["LachesisVerif.Props.C15"],
